@@ -11,6 +11,7 @@ package main
 //   - a workload that does not finish within the watchdog is a hang.
 
 import (
+	"path/filepath"
 	"bufio"
 	"fmt"
 	"io"
@@ -275,8 +276,64 @@ func runConc(w *bufio.Writer, id int, seed int64) (fails int) {
 		fail("Control after the workload: %v", err)
 	}
 	db2.Close()
+	// Drop while the asynchronous-write routine and writers are at work: once Drop has returned and the
+	// writers have stopped, nothing may write the database back (a final state no sequential order gives)
+	for k := 0; k < 12; k++ {
+		if msg := dropProbe(seed*97 + int64(k)); msg != "" {
+			fail("%s", msg)
+			break
+		}
+	}
 	fmt.Fprintf(w, "conc %d goroutines=%d objects=%d fails=%d cfg=%s\n", id, G, len(want), fails, c.Lines()[0])
 	return
+}
+
+func dropProbe(seed int64) string {
+	root, _ := os.MkdirTemp("", "hzd")
+	os.RemoveAll(root) // Open creates nothing; Create makes the directories
+	defer os.RemoveAll(root)
+	db := sod.Open(root)
+	s := sod.DefaultSchema
+	s.Asynchrone(1, time.Hour)
+	if err := db.Create(&shape.Rec{}, s); err != nil {
+		return "drop probe: create: " + err.Error()
+	}
+	stop := make(chan struct{})
+	var wg sync.WaitGroup
+	for g := 0; g < 3; g++ {
+		wg.Add(1)
+		go func(g int) {
+			defer wg.Done()
+			for i := 0; ; i++ {
+				select {
+				case <-stop:
+					return
+				default:
+				}
+				db.InsertOrUpdate(&shape.Rec{A: int64(g*100000 + i), K: fmt.Sprintf("d%d-%d", g, i)})
+			}
+		}(g)
+	}
+	time.Sleep(time.Duration(20+seed%30) * time.Millisecond)
+	if err := db.Drop(); err != nil {
+		close(stop)
+		wg.Wait()
+		return "drop probe: Drop: " + err.Error()
+	}
+	close(stop)
+	wg.Wait()
+	time.Sleep(350 * time.Millisecond) // more than three periods of the routine
+	if ents, err := os.ReadDir(root); err == nil {
+		n := 0
+		filepath.Walk(root, func(p string, info os.FileInfo, err error) error {
+			if err == nil && !info.IsDir() {
+				n++
+			}
+			return nil
+		})
+		return fmt.Sprintf("after Drop returned (writers stopped, asynchronous writes only), the database directory exists again with %d entries and %d file(s): something wrote after Drop", len(ents), n)
+	}
+	return ""
 }
 
 // flatToRecCanon: the canonical (case-transformed) form of what a goroutine wrote
